@@ -120,7 +120,7 @@ def rules(ctx: Ctx) -> None:
                         if any(a.kind == "inst" and a.name in model_classes - orderable for a in et.alts()) or et.kind == "unknown":
                             ctx.ob("R10.1", f"raise-expression-cannot-fail:{owner}", False, loc(f.mod, k),
                                    f"`{u(k)[:60]}` inside a raise orders objects that define no ordering: TypeError would escape instead of the library's exception")
-    ctx.floor("explicit raise statements", n_raise, 15)
+    ctx.floor("explicit raise statements", n_raise, 14)
 
     # ---- R10.6 no ordering of model objects without key ----------------------------------------
     n_sorted = 0
